@@ -1,6 +1,7 @@
 package main
 
 import (
+	"os"
 	"fmt"
 	"strings"
 
@@ -20,6 +21,7 @@ func checkC07(w *World, r *Report) {
 	r.Rule("C07.transfer", "P6", "the bank transfer sender->recipient carries the same Coins, between the same two addresses, only after unlock and account creation succeeded", 3)
 	r.Rule("C07.guard", "P5", "the sender's account is modified only after amount <= LockedCoins(now) (IsAllLTE true edge) and after the type test for ContinuousVestingAccount succeeded", 4)
 	r.Rule("C07.writes", "P4", "in the unlock function the only field of the sender's account that is stored is OriginalVesting, by subtraction from itself", 2)
+	r.Rule("C07.reduction", "P6", "every amount taken off the sender's OriginalVesting is either trunc(coin.Amount x OriginalVesting.AmountOf(denom) / GetVestingCoins(now).AmountOf(denom)) for the requested coin, or the constant rounding compensation; nothing else is subtracted", 2)
 	r.Rule("C07.move", "P6", "the move handlers pass LockedCoins(from) / its restriction to the requested denominations as the amount", 2)
 	if !ro.checkFloors(r) {
 		return
@@ -131,6 +133,7 @@ func checkC07(w *World, r *Report) {
 		typeEdges = append(typeEdges, boolValueEdges(unlock, v, true)...)
 	}
 	nmod := 0
+	nred := 0
 	for _, fs := range FieldStores(unlock) {
 		if fs.Struct == nil || fs.Struct.Obj().Pkg() == nil || !strings.Contains(fs.Struct.Obj().Pkg().Path(), "x/auth/") {
 			continue
@@ -146,6 +149,27 @@ func checkC07(w *World, r *Report) {
 			okW = is && loadOfField(c.Common().Args[0], "OriginalVesting", nil)
 		}
 		r.Check(okW, "C07.writes", construct, w.Pos(fs.Store.Pos()), "OriginalVesting = OriginalVesting.Sub(...)", "a field other than OriginalVesting is written, or OriginalVesting is not reduced from itself")
+		if okW {
+			c, _ := isCallTo(fs.Store.Val, "types.Coins.Sub")
+			o := w.Tracer().Origins(c.Common().Args[1])
+			for _, nc := range o.CallsNamed("types.NewCoin") {
+				o2 := w.Tracer().Origins(nc.Common().Args[1])
+				if os.Getenv("C4E_DEBUG") != "" {
+					fmt.Println("DBG C07.reduction", o2.String(), o2.Ops)
+				}
+				isConst := len(o2.Leaves) > 0
+				for _, l := range o2.Leaves {
+					if l.Kind != "const" && !(l.Kind == "call" && strings.HasSuffix(l.String(), "types.NewInt")) {
+						isConst = false
+					}
+				}
+				proportional := o2.HasOp("Dec.Quo") && o2.HasOp("Dec.Mul") && o2.HasOp("Dec.TruncateInt") && o2.HasPath("Amount") && o2.HasCall("AmountOf") && o2.HasCall("GetVestingCoins")
+				r.Check(isConst || proportional, "C07.reduction", fmt.Sprintf("unlock: amount taken off OriginalVesting #%d", nred), w.Pos(nc.Pos()),
+					map[bool]string{true: "the constant rounding compensation", false: "trunc(requested amount x original / vesting) of the denomination"}[isConst],
+					"the amount taken off OriginalVesting is not the requested amount scaled by original/vesting (origins: "+o2.String()+")")
+				nred++
+			}
+		}
 	}
 	if nmod == 0 {
 		r.Bad("C07.writes", "unlock reduces OriginalVesting", w.Pos(unlock.Pos()), "no store to the sender's account found")
